@@ -169,6 +169,7 @@ theorem GIe_ext (N : Nat) (links : List (Nat × List Tgt)) (hwf : GraphWF N link
       | many _ => exact he.elim
       | drop => exact he.elim
       | sames _ => exact he.elim
+      | mixed _ => exact he.elim
 
 theorem GIe_runExt (N : Nat) (links : List (Nat × List Tgt)) (hwf : GraphWF N links) (es : List Ext) :
     ∀ (g : G), (∀ e ∈ es, ExtT1 e) → GIe N links g → GIe N links (runExt g es) := by
